@@ -205,7 +205,7 @@ def oracle(ctx, orc, focus=None):
                                     "expected": "an answer (token stream, error or exit 1)", "observed": a[:400],
                                     "what": "the real reader/macro code died in-process", "replay_line": l})
     # 2. one statement per source, in-process: every CPU with garbage operands, every directive with garbage
-    sweep = G.cpu_garbage(ctx, ctx.scale(150, 1500)) + G.directive_garbage(ctx, ctx.scale(6000, 60000))
+    sweep = G.cpu_garbage(ctx, ctx.scale(150, 800)) + G.directive_garbage(ctx, ctx.scale(6000, 30000))
     sl = ["c16asm " + nvlib.hexs(s) for _, s in sweep]
     ans = nvlib.run_lines(ctx.harness, sl, timeout=60, shards=64)
     sw = {}
